@@ -76,6 +76,16 @@ EraseKey(i, k) ==
   /\ LET ps == slot[i][2]  p == Find(ps, k) IN
      slot' = [slot EXCEPT ![i] = <<"obj", IF p = 0 THEN ps ELSE RemoveIdx(ps, p)>>]
   /\ Log(<<"erase_key", i, k>>)
+\* erase by position / position range in the iteration order of the object (key order for json, insertion order for ojson);
+\* the range may be empty, may start at begin() and may reach end()
+EraseMemberAt(i, pos) ==
+  /\ IsObj(slot[i]) /\ pos \in 0..(Len(slot[i][2]) - 1)
+  /\ slot' = [slot EXCEPT ![i] = <<"obj", RemoveIdx(slot[i][2], pos + 1)>>]
+  /\ Log(<<"erase_member_at", i, pos>>)
+EraseMemberRange(i, a, b) ==
+  /\ IsObj(slot[i]) /\ a \in 0..Len(slot[i][2]) /\ b \in a..Len(slot[i][2])
+  /\ slot' = [slot EXCEPT ![i] = <<"obj", SubSeq(slot[i][2], 1, a) \o SubSeq(slot[i][2], b + 1, Len(slot[i][2]))>>]
+  /\ Log(<<"erase_member_range", i, a, b>>)
 \* merge: members of j whose key is absent in i are inserted; merge_or_update: all members of j are inserted or assigned
 RECURSIVE MergeInto(_, _, _, _)
 MergeInto(ps, qs, n, update) ==
@@ -136,8 +146,8 @@ Next ==
   \/ \E i \in Slots, k1 \in Keys, k2 \in Keys, k3 \in Keys : (MaxSize >= 3 /\ k1 # k3 /\ InsertRange(i, <<k1, k2, k3>>))
   \/ \E i \in Slots, j \in Slots : Merge(i, j, TRUE) \/ Merge(i, j, FALSE) \/ PushBack(i, j)
   \/ \E i \in Slots, j \in Slots, p \in 0..MaxSize : InsertAt(i, p, j) \/ SetAt(i, p, j)
-  \/ \E i \in Slots, p \in 0..MaxSize : EraseAt(i, p) \/ Resize(i, p)
-  \/ \E i \in Slots, a \in 0..MaxSize, b \in 0..MaxSize : EraseRange(i, a, b)
+  \/ \E i \in Slots, p \in 0..MaxSize : EraseAt(i, p) \/ Resize(i, p) \/ EraseMemberAt(i, p)
+  \/ \E i \in Slots, a \in 0..MaxSize, b \in 0..MaxSize : EraseRange(i, a, b) \/ EraseMemberRange(i, a, b)
   \/ \E i \in Slots : Clear(i) \/ Reserve(i, 8)
 
 (* --- properties of the model itself ----------------------------------- *)
